@@ -23,6 +23,7 @@ structure Foot (c' : Nat) (s s' : State) : Prop where
   entry    : ∀ k g x, s.bc.rcvs c' = .waiting k g x → s'.bc.entries g = s.bc.entries g
   pubs     : ∀ k g x p, s.bc.rcvs c' = .waiting k g x → s'.bc.pubs p = s.bc.pubs p ∨
                ((∀ pk v, s.bc.pubs p ≠ .holding pk v g) ∧ (∀ pk v, s'.bc.pubs p ≠ .holding pk v g))
+  cllock   : s'.clLock = s.clLock
 
 /-- when the stub's `Receive` step can run at all (whatever `Receive` answers) -/
 theorem callReceive_isSome (sk : Skeleton) (t : State) (c : Nat) :
@@ -40,7 +41,7 @@ theorem callReceive_isSome (sk : Skeleton) (t : State) (c : Nat) :
 
 theorem foot_enabled (sk : Skeleton) {s s' : State} (c' : Nat) (hf : Foot c' s s') (b : Act)
     (hb : actCall b = some c') : (step sk s' b).isSome = (step sk s b).isSome := by
-  obtain ⟨f1, f2, f3, f4, f5, f6, f7, f8, f9, f10, f11, f12⟩ := hf
+  obtain ⟨f1, f2, f3, f4, f5, f6, f7, f8, f9, f10, f11, f12, f13⟩ := hf
   cases b with
   | waiterGetsDone c =>
     simp [actCall] at hb; subst hb
@@ -71,7 +72,7 @@ theorem foot_enabled (sk : Skeleton) {s s' : State} (c' : Nat) (hf : Foot c' s s
     simp [actCall] at hb; subst hb
     rw [callReceive_isSome, callReceive_isSome, f1, f2, f3, f6, f10]
   | _ =>
-    simp [actCall] at hb <;> subst hb <;> simp only [step, Bc.step, f1, f2, f3, f4, f5, f6, f7, f8, f9, f10] <;>
+    simp [actCall] at hb <;> subst hb <;> simp only [step, Bc.step, releases, newClosures, f1, f2, f3, f4, f5, f6, f7, f8, f9, f10, f13] <;>
       first | rfl | grind
 
 theorem foot_aux (sk : Skeleton) {s s' : State} (a : Act) (hs : step sk s a = some s')
@@ -96,7 +97,8 @@ theorem foot_of_step (sk : Skeleton) (hv : Live sk) {s s' : State} (hr : Reach s
   obtain ⟨hc', hbc', hlk'⟩ := alive sk hv hr'
   obtain ⟨o1, o2, o3, o4, _⟩ := others_frame sk a hs c c' ha hne
   obtain ⟨a1, a2, a3, a4, a5⟩ := foot_aux sk a hs (reach_wf sk hr) (reach_lk sk hr) c c' ha hne
-  exact ⟨by rw [hc, hc'], by rw [hbc, hbc'], by rw [hlk, hlk'], a1, a2, o1, o2, o3, a3, o4, a4, a5⟩
+  exact ⟨by rw [hc, hc'], by rw [hbc, hbc'], by rw [hlk, hlk'], a1, a2, o1, o2, o3, a3, o4, a4, a5,
+    by rw [cl_free sk hv hr, cl_free sk hv hr']⟩
 
 /-- …hence does not change which steps of another call (and of its waiter) are enabled. -/
 theorem others_enabled (sk : Skeleton) (hv : Live sk) {s s' : State} (hr : Reach sk s) (a b : Act)
